@@ -267,6 +267,10 @@ def run(ctx):
     cfgs = configs(ctx.thorough)
     if ctx.replay:
         rp = json.load(open(ctx.replay))["replay"]
+        if rp.get("packaging"):
+            import c16
+            c16.packaging_scenarios(ctx, res, mode="argv")
+            return res.done()
         cfgs = [(rp["build"], rp["container"])]
     with ProcessPoolExecutor(max_workers=16) as ex:
         results = list(ex.map(run_cfg, [(i, c, ctx.scratch) for i, c in enumerate(cfgs)], chunksize=8))
@@ -293,11 +297,18 @@ def run(ctx):
     for (b1, b2), r in zip(pairs, rres):
         for sig, what in judge_rebuild(r, b1, b2):
             res.violation("rebuild:" + sig, f"build {b1} then rebuild {b2}: {what}", {"build": b1, "rebuild": b2})
+    # buildpack references that are packaged on the fly (CurrentCrate / WorkspaceBuildpack, also with
+    # overlapping dependency closures): one pack build, every reference in order, each directory complete
+    pk = 0
+    if not ctx.replay:
+        import c16
+        pk = c16.packaging_scenarios(ctx, res, mode="argv")
     res.cov("rebuild_pairs", len(pairs))
-    res.cov("evaluations", len(cfgs) + len(pairs))
+    res.cov("packaged_reference_configurations", pk)
+    res.cov("evaluations", len(cfgs) + len(pairs) + pk)
     res.cov("distinct_nontrivial", len(cfgs) - 2)
     res.cov("distinct_outcomes", len(shapes))
-    res.cov("rule", "configurations = each field varied over its full domain against defaults (builder over 9 strings; env maps of <=2 keys x 10 value strings incl. '', leading dashes, spaces, '=', Unicode, shell metacharacters; buildpack lists of length <=3; relative/absolute app dir; preprocessor; entrypoint None+10 strings; commands of <=2 elements; all port subsets of {80,8080,65535}; <=2 bind mounts over 4 synthetic paths plus existing sources: a directory, a symlink to it and a redundant spelling of it, up to 3 at once); build+rebuild pairs incl. every pair of preprocessor settings {none, A, B} with the app content pack saw judged per build and, in thorough, all pairs of fields over thinned domains; each run through the real TestRunner with stand-in CLIs; the logged argv is decoded with reference parsers and compared with the configuration; non-trivial = non-default configurations")
+    res.cov("rule", "configurations = each field varied over its full domain against defaults (builder over 9 strings; env maps of <=2 keys x 10 value strings incl. '', leading dashes, spaces, '=', Unicode, shell metacharacters; buildpack lists of length <=3; relative/absolute app dir; preprocessor; entrypoint None+10 strings; commands of <=2 elements; all port subsets of {80,8080,65535}; <=2 bind mounts over 4 synthetic paths plus existing sources: a directory, a symlink to it and a redundant spelling of it, up to 3 at once); build+rebuild pairs incl. every pair of preprocessor settings {none, A, B} with the app content pack saw judged per build and, in thorough, all pairs of fields over thinned domains; each run through the real TestRunner with stand-in CLIs; plus 5 sets of on-the-fly packaged references (current crate, workspace buildpacks, a composite, overlapping dependency closures) x both expectations in a really compiled generated workspace; the logged argv is decoded with reference parsers and compared with the configuration; non-trivial = non-default configurations")
     res.cov("exhaustive", True)
     res.sample({"build": cfgs[3][0], "container": cfgs[3][1]})
     res.sample({"build": cfgs[len(cfgs) // 2][0], "container": cfgs[len(cfgs) // 2][1]})
